@@ -324,8 +324,9 @@ func pipeLine(c pipeCfg, o pipeObs) string {
 		note = "-"
 	}
 	note = strings.ReplaceAll(note, " ", "+")
-	return fmt.Sprintf("C18 trace %d %d %d w=%s lost=%s multi=%s before=%s after=%s leak=%s note=%s", c.nProd, c.nMsg, c.mode,
-		intsTok(o.written), intsTok(lost), mt, intsTok(o.before), intsTok(o.after), leak, note)
+	caps := fmt.Sprintf("%d,%d,%d,%d", tune("capOutputQueue"), tune("capSendQueue"), tune("capSendDoneQueue"), tune("capStallControl"))
+	return fmt.Sprintf("C18 trace %d %d %d w=%s lost=%s multi=%s before=%s after=%s leak=%s note=%s caps=%s", c.nProd, c.nMsg, c.mode,
+		intsTok(o.written), intsTok(lost), mt, intsTok(o.before), intsTok(o.after), leak, note, caps)
 }
 
 // runPrestart queues n messages (with done channels) on a peer whose
